@@ -311,7 +311,16 @@ func (d *Decls) Axiom(key string, t string) {
 }
 
 func (d *Decls) Text() string {
-	return strings.Join(d.order, "\n")
+	// sort declarations first (a heap constant may have been declared before the struct datatype it stores), otherwise in order
+	var sorts, rest []string
+	for _, t := range d.order {
+		if strings.HasPrefix(t, "(declare-datatypes") || strings.HasPrefix(t, "(declare-sort") {
+			sorts = append(sorts, t)
+		} else {
+			rest = append(rest, t)
+		}
+	}
+	return strings.Join(append(sorts, rest...), "\n")
 }
 
 // ---------------------------------------------------------------------------------------------
